@@ -880,6 +880,13 @@ func GenSchedPlan(seed uint64, idx int, prop string) *plan.SchedPlan {
 	}
 	sibOf := map[int]int{}
 	for i, o := range p.Objects {
+		if p.Data[base[i]].Gen == "floats" && o.CopyOf == 0 {
+			// the same numbers at the other float width (seed parity decides the width)
+			d := p.Data[base[i]]
+			p.Data = append(p.Data, DatumSpec{Gen: "floats", Seed: d.Seed ^ 1})
+			sibOf[i] = len(p.Data) - 1
+			continue
+		}
 		if o.Kind == "filter" && r.Chance(0.6) {
 			if sibs := siblings[p.Data[base[i]].Gen]; len(sibs) > 0 {
 				p.Data = append(p.Data, DatumSpec{Gen: sibs[r.Intn(len(sibs))], Seed: r.Uint64() % 1000000})
